@@ -3,6 +3,7 @@ import Driver.C08
 import Driver.C01
 import Driver.C02
 import Driver.C03
+import Driver.C04
 import Driver.C09
 import Driver.C10
 import Driver.C11
@@ -16,6 +17,7 @@ def dispatch (p op : String) (c i : Json) : Except String (Json × String) :=
   | "C01" => D01.handle op c i
   | "C02" => D02.handle op c i
   | "C03" => D03.handle op c i
+  | "C04" => D04.handle op c i
   | "C09" => D09.handle op c i
   | "C10" => D10.handle op c i
   | "C11" => D11.handle op c i
